@@ -182,8 +182,12 @@ def gen_cfg(rnd, explainer, exact, allow_discontinuous=False):
         cfg["out_type"] = "plain"       # (the harness model negates its value: not defined for booleans)
     if cfg["out_type"] == "u8-loss" and explainer != "pfi":
         cfg["out_type"] = "plain"       # (SAGE subtracts losses from each other: unsigned modular arithmetic is not a real-valued loss)
-    if cfg["model"] in ("multi", "grow") and cfg["loss"] in ("sq", "abs") and not exact:
-        pass
+    # fields added later draw from their own generator (keyed on the configuration) so that earlier seeds keep their configurations
+    import zlib
+    aux = random.Random(zlib.crc32(repr((cfg["d"], cfg["steps"], cfg["n_inner"], str(cfg["alpha"]), cfg["model"], cfg["names"])).encode()))
+    if aux.random() < 0.15 and cfg["n_inner"] < 8 and cfg["steps"] >= 6 and not (cfg.get("reuse_out")):
+        # the user re-assigns the public attribute `n_inner_samples` between two observations: later calls use the new value
+        cfg["reassign_inner"] = (aux.randrange(2, cfg["steps"] - 1), aux.choice([1, 2, 3, 4]))
     return cfg
 
 
@@ -301,6 +305,7 @@ class Scenario:
                                    shuffle_keys=cfg.get("shuffle_keys", False), str_values=cfg.get("str_values", False),
                                    ykind=cfg.get("ykind", "int") if cfg["loss"] in ("hash", "zero", "zero-one") else "int")
         self.t = 0
+        self.n_inner_now = cfg["n_inner"]      # what the explainer's public attribute says (the user may re-assign it)
         self.max_loss = 1.0
         self._explain = self.e.explain_one if cfg.get("hoisted") else None
         for _ in range(cfg.get("warm_start", 0)):
@@ -346,6 +351,10 @@ class Scenario:
                 self.e.update_storage(xm, ym)
             else:
                 self.e.update_storage(x_i=xm, y_i=ym)
+        ri = self.cfg.get("reassign_inner")
+        if ri and self.t == ri[0]:
+            self.e.n_inner_samples = ri[1]
+            self.n_inner_now = ri[1]
         self.clock.reset()
         fn = self._explain if getattr(self, "_explain", None) is not None else self.e.explain_one
         if self.cfg.get("keyword_call"):
